@@ -104,6 +104,8 @@ class RefGen:
         self.no_copy = tuple(no_copy)
         self.namedtuple_as_dict = namedtuple_as_dict
         self.static_dataclasses = False
+        self.dataclass_call = None  # callable(gen, cls, x, 'to'|'from') -> expression (format / flag aware)
+        self.resolve = None  # callable(type, direction) -> registration | None  (customizations)
 
     def bind(self, obj, hint="o"):
         for k, v in self.ns.items():
@@ -118,6 +120,26 @@ class RefGen:
         self.n += 1
         return f"_v{self.n}"
 
+    # ------------------------------------------------------------------ customizations
+    def _override(self, t, x, direction):
+        """the winning registration for this type position, if any (C10 precedence is decided by
+        self.resolve); pass_through leaves the value untouched"""
+        if self.resolve is None:
+            return None
+        from mashumaro.helper import pass_through
+        from mashumaro.types import SerializationStrategy
+
+        reg = self.resolve(t, direction)
+        if reg is None:
+            return None
+        if reg is pass_through:
+            return x
+        if isinstance(reg, SerializationStrategy):
+            return f"{self.bind(reg, 'strategy')}.{direction}({x})"
+        if callable(reg):
+            return f"{self.bind(reg, 'fn')}({x})"
+        raise Unsupported(f"registration {reg!r}")
+
     # ------------------------------------------------------------------ decode
     def dec(self, t, x, nullable_done=False):
         """reference expression deserialising the expression source ``x`` as type ``t``"""
@@ -126,6 +148,9 @@ class RefGen:
             # TypeVar position accepts null on input
             inner = self.dec(t.__bound__, x)
             return inner if inner == x else f"({inner} if {x} is not None else None)"
+        over = self._override(t, x, "deserialize")
+        if over is not None:
+            return over
         t = strip(t)
         o = _origin(t)
         if t is typing.Any or t is object:
@@ -150,6 +175,8 @@ class RefGen:
         if isinstance(t, type) and hasattr(t, "_deserialize") and hasattr(t, "_serialize"):
             return f"{self.bind(t)}._deserialize({x})"
         if is_mixin_dataclass(t):
+            if self.dataclass_call is not None:
+                return self.dataclass_call(self, t, x, "from")
             return f"{self.bind(t)}.__mashumaro_from_dict__({x})"
         if t in (datetime.datetime, datetime.date, datetime.time):
             return f"datetime.{t.__name__}.fromisoformat({x})"
@@ -302,6 +329,9 @@ class RefGen:
 
     # ------------------------------------------------------------------ encode
     def enc(self, t, x):
+        over = self._override(t, x, "serialize")
+        if over is not None:
+            return over
         t = strip(t)
         o = _origin(t)
         if t is typing.Any or t is object:
@@ -324,6 +354,8 @@ class RefGen:
         if isinstance(t, type) and hasattr(t, "_deserialize") and hasattr(t, "_serialize"):
             return f"{x}._serialize()"
         if is_mixin_dataclass(t):
+            if self.dataclass_call is not None:
+                return self.dataclass_call(self, t, x, "to")
             if self.static_dataclasses:
                 # codec path: the unit compiled for exactly this class (no dynamic dispatch)
                 return f"{self.bind(t)}.__mashumaro_to_dict__({x})"
